@@ -468,6 +468,16 @@ class Session:
             md[key] = self.mval(v)
         elif kd == 'update0':
             md.update({})
+        elif kd == 'updateall':
+            # every key in one call (as a dict, as keyword arguments when the names allow it, or as pairs)
+            d = {self.keys[q]: self.mval(v) for q in sorted(self.keys)}
+            self.nall = getattr(self, 'nall', 0) + 1
+            if self.nall % 3 == 1 and all(kk.isidentifier() for kk in d):
+                md.update(**d)
+            elif self.nall % 3 == 2:
+                md.update(list(d.items()))
+            else:
+                md.update(d)
         elif kd == 'updatebad':
             # values of several kinds that JSON cannot hold (bytes that are not text among them)
             self.nbad = getattr(self, 'nbad', len(key)) + 1
